@@ -1,6 +1,7 @@
 """C06 - every value shown in a violation message is the value Python computes. DESIGN 4/C06, 3.3."""
 import ast
 import inspect
+import re
 import types
 
 from hypothesis import given, strategies as st
@@ -36,6 +37,9 @@ ASSUMPTIONS = ["helper calls never return classes/functions/modules; no lambda/a
                "a key spelled like both a call argument the condition does not take and a global/closure name the "
                "condition uses may show either value; sub-expressions computed from it must show Python's value"]
 KNOWN = {}
+
+
+ADDR = re.compile(r"0x[0-9a-f]+")
 
 
 def representable(v):
@@ -90,6 +94,7 @@ def check_case(ctx, case):
     text, _, _, _ = RD.module_text(ctext, lam_params, role=role, is_async=is_async)
     value, nodes, rec = OR.record(ctext, b, list(b))
     with RD.Module(text) as mod:
+        RD.shadow_globals(mod, case.get("shadow"))
         exc = RD.call(mod, role, is_async, inputs)
     jcase = dict(case)
     jcase["final_text"] = ctext
@@ -185,7 +190,8 @@ def judge(ctx, case, ctext, lam_params, b, inputs, nodes, rec, parsed, msg):
                 return
             cands.append(v)
         texts = [arepr(v) for v in cands]
-        if val not in texts:
+        # one-shot iterators (zip, enumerate) have address-bearing reprs and the re-computation builds a new object
+        if val not in texts and ADDR.sub("0x", val) not in [ADDR.sub("0x", t) for t in texts if ADDR.search(t)]:
             if collision:
                 continue
             fail("soundness:wrong-value", "%r is shown as %s, Python computed %s" % (key, val, " / ".join(sorted(set(texts)))), key)
@@ -242,8 +248,9 @@ def check_all_entry(ctx, fail, key, shown, b, ctext):
     gen = node.args[0]
     targets = []
     for g in gen.generators:
-        for n in ast.walk(g.target):
-            if isinstance(n, ast.Name) and n.id not in targets:
+        # in source order (a nested target like `(a, b), c` is walked breadth-first by ast.walk)
+        for n in sorted((n for n in ast.walk(g.target) if isinstance(n, ast.Name)), key=lambda n: (n.lineno, n.col_offset)):
+            if n.id not in targets:
                 targets.append(n.id)
     tup = "(%s,)" % ", ".join(targets)
     clauses = " ".join(
@@ -263,7 +270,9 @@ def check_all_entry(ctx, fail, key, shown, b, ctext):
 def st_case(draw, tier):
     cond = draw(GR.st_condition(depth=3 if tier == "quick" else 4))
     role = draw(st.sampled_from(["require", "require", "require", "ensure", "invariant"]))
-    return {"text": cond["text"], "params": cond["params"], "features": cond["features"], "role": role,
+    # every second case: module globals named like the parameters, bound to other values (the parameter must win)
+    shadow = draw(GR.st_inputs()) if draw(st.booleans()) else None
+    return {"text": cond["text"], "params": cond["params"], "features": cond["features"], "role": role, "shadow": shadow,
             "async": role != "invariant" and draw(st.integers(0, 3)) == 0, "inputs": draw(GR.st_inputs())}
 
 
@@ -288,6 +297,10 @@ DIRECTED = [
     ("all(y > 1 for y in xs if y != 5 if 10 // (y - 5) < 100)", ["xs"], {"xs": [7, 5, 0]}),
     ("all(len(v) < 3 for v in [xs, ys])", ["xs", "ys"], {"xs": list(range(40)), "ys": [1]}),
     ("all(v != s for v in [CS, s])", ["s"], {"s": "abcxyz" * 12}),
+    ("all(y < z for i, (y, z) in enumerate(zip(xs, ys)))", ["xs", "ys"], {"xs": [1, 9, 2], "ys": [4, 5, 6]}),
+    ("all(abs(n) < 4 for i, (n, z) in enumerate(zip(xs, ys)))", ["xs", "ys"], {"xs": [1, 9, 2], "ys": [4, 5, 6], "n": -7}),
+    ("all(len(tl) < 2 for h, *tl in [xs + [0], ys + [1, 2]])", ["xs", "ys"], {"xs": [1], "ys": [4, 5]}),
+    ("all(y + z < c for (y, z), c in zip(zip(xs, ys), xs))", ["xs", "ys"], {"xs": [1, 9, 2], "ys": [4, 5, 6]}),
 ]
 
 
